@@ -57,7 +57,9 @@ TECHNIQUE = ("Coq proof (inductive invariant Consistent over all histories; exac
 LEVEL_TEXT = ("Machine-checked Coq theorems for all histories under the stated guard: consistency of scenes and lines, smallest free "
               "line, exact removal with frame conditions for end / service loss / keep-alive expiry, live-scene requests, "
               "allocation on a working service of minimal busy weight. Tied to the Go code by comparing the full World/manager "
-              "dump after every operation of each generated history, and by evaluating the property's boolean form on those dumps.")
+              "dump after every operation of each generated history, and by evaluating the property's boolean form on those dumps; "
+              "C19_monitor_accepts_model proves that every trace the model accepts passes that monitor, so a monitor failure is a "
+              "behaviour the model excludes.")
 
 
 def extra_coverage(cases):
